@@ -28,6 +28,8 @@ def gen_data(rng):
         for p in (EX.n, EX.m):
             if rng.random() < 0.8:
                 g.add((n, p, Literal(rng.choice([0, 1, 2, 3, 5, 8, 13]))))
+            if rng.random() < 0.3:
+                g.add((n, p, Literal(rng.choice([0, 4, 6, 21]))))   # a second value: node expressions yield sets
         if rng.random() < 0.5:
             g.add((n, EX.k, rng.choice(nodes)))
         if rng.random() < 0.6:
@@ -190,6 +192,13 @@ def main(tier, seed, replay=None):
         if kindsel < 0.45:
             # ---- (b) sh:expression
             e = gen_expr(rng, fns, nodes, depth=rng.choice([1, 1, 2]))
+            if rng.random() < 0.35:
+                # a comparison over a possibly multi-valued path: the value set may be {true}, {false}, {true, false} or empty
+                gt = {"node": EX.gtfn, "params": [{"name": "lhs", "order": 1}, {"name": "rhs", "order": 2}], "kind": "ask_gt"}
+                if not any(f_["node"] == EX.gtfn for f_ in fns):
+                    fns.append(gt)
+                    fn_ttl += function_ttl(gt)
+                e = ("fn", gt, [("path", rng.choice([EX.n, EX.m])), ("const", Literal(rng.choice([0, 2, 4])))])
             if e[0] != "fn" and rng.random() < 0.7:
                 e = ("fn", fns[0], [e] + [("const", Literal(3))] * (len(fns[0]["params"]) - 1))
             foci = rng.sample(nodes, rng.randint(1, len(nodes)))
